@@ -1,102 +1,240 @@
 (* C08 -- running commands never leaks descriptors, in the shell or into children.
-   Model: Model/OsLite.v + Model/Pipeline.v (run_pipeline of core.rs, both as it is and as repaired
-   by notes/C02-fix-1.patch: parameter fixed). *)
-From Coq Require Import List Arith Bool.
-From Cicada Require Import Model.OsLite Model.Pipeline Proofs.OsLiteProofs Proofs.PipelineProofs.
+   Model: Model/OsLite.v + Model/Pipeline.v (run_pipeline of core.rs as of /repo d4ac685); [v0] is the
+   code as it is.  The other values of [variant] switch single repairs off again (the code before
+   8dc92a8 / 07e8792 / 219c117 / 3c1f8de / d4ac685) and appear only in the regression examples. *)
+From Coq Require Import List Arith Bool Lia.
+From Cicada Require Import Model.OsLite Model.Pipeline Proofs.OsLiteProofs Proofs.PipelineProofs Proofs.ChildProofs
+     Proofs.BuiltinProofs.
 Import ListNotations.
-
-(* what the property demands of one run: the shell's table is what it was (same numbers, same
-   objects), and every exec'd stage holds, above 2, exactly what the shell had without close-on-exec *)
-Definition kid_clean (T0 : table) (k : kid) : Prop :=
-  k_out k = OExec -> forall x, 3 <= x -> lookup (tab (k_proc k)) x = drop_cx (lookup T0 x).
-Definition run_clean (fixed : bool) (fail_at openable : nat -> bool) (pl : plan) (sh : proc) : Prop :=
-  let r := run_pipeline fixed fail_at openable pl sh in
-  teq_tab (res_shell r) (tab sh) /\ Forall (kid_clean (tab sh)) (res_kids r).
-Definition C08_full : Prop :=
-  forall fail_at openable pl sh, run_clean false fail_at openable pl sh.
 
 Definition nf (_ : nat) := false.
 Definition yes (_ : nat) := true.
 Definition sh0 := mkp t_std [].
 Definition ext := mks FNone [] KExt [].
 
-(* --- refutations: one witness per recorded class (each reproduced on the real binary) --- *)
-(* prog 2>&1 : the dup()ed descriptor 3 stays open in prog *)
-Example C08_refuted_dup :
-  lookup (tab (k_proc (hd (mkkid 0 sh0 OExec)
-     (res_kids (run_pipeline false nf yes (mkplan [mks FNone [mkr F2 false TAmp1] KExt []] false) sh0))))) 3
-  = Some (OInh 1, false).
-Proof. vm_compute. reflexivity. Qed.
-(* echo $(alias) : the four capture-pipe ends stay open in the shell *)
-Example C08_refuted_builtin_capture :
-  map (lookup (tab (res_shell (run_pipeline false nf yes (mkplan [mks FNone [] KBuiltin [true]] true) sh0)))) [3; 4; 5; 6]
-  = [Some (OPipeR PCapOut, false); Some (OPipeW PCapOut, false); Some (OPipeR PCapErr, false); Some (OPipeW PCapErr, false)].
-Proof. vm_compute. reflexivity. Qed.
-(* echo $(prog > f) : prog keeps both ends of the stdout capture pipe *)
-Example C08_refuted_capredir :
-  map (lookup (tab (k_proc (hd (mkkid 0 sh0 OExec)
-     (res_kids (run_pipeline false nf yes (mkplan [mks FNone [mkr F1 false (TFile 5)] KExt []] true) sh0)))))) [3; 4]
-  = [Some (OPipeR PCapOut, false); Some (OPipeW PCapOut, false)].
-Proof. vm_compute. reflexivity. Qed.
-(* alias 1>&2 > f : the look-ahead call of _get_std_fds opens f and never closes it *)
-Example C08_refuted_builtin_lookahead :
-  lookup (tab (res_shell (run_pipeline false nf yes
-     (mkplan [mks FNone [mkr F1 false TAmp2; mkr F1 false (TFile 5)] KBuiltin [true]] false) sh0))) 3
-  = Some (OFile 5 MTrunc, true).
-Proof. vm_compute. reflexivity. Qed.
-(* echo $(a | b) when the first capture pipe() fails: the stage pipe 3,4 is not released *)
-Example C08_refuted_capture_fail :
-  let r := run_pipeline false (fun k => Nat.eqb k 1) yes (mkplan [ext; ext] true) sh0 in
-  res_error r = true /\ map (lookup (tab (res_shell r))) [3; 4] = [Some (OPipeR (PStage 0), false); Some (OPipeW (PStage 0), false)].
-Proof. vm_compute. split; reflexivity. Qed.
+(* ---------------- the full statement ---------------- *)
+(* every exec'd stage holds 0 1 2 and, above 2, exactly what the shell had without close-on-exec *)
+Definition kid_clean (T0 : table) (k : kid) : Prop :=
+  k_out k = OExec ->
+  (forall x, x < 3 -> exists o, lookup (tab (k_proc k)) x = Some (o, false)) /\
+  (forall x, 3 <= x -> lookup (tab (k_proc k)) x = drop_cx (lookup T0 x)).
+(* the shell's table is what it was (same numbers, same objects); also when pipe() fails *)
+Definition run_clean (v : variant) (fail_at openable : nat -> bool) (pl : plan) (sh : proc) : Prop :=
+  let r := run_pipeline v fail_at openable pl sh in
+  teq_tab (res_shell r) (tab sh) /\ (res_error r = false -> Forall (kid_clean (tab sh)) (res_kids r)).
+Definition C08_full : Prop :=
+  forall fail_at openable pl sh i0 o0 e0, std_ok (tab sh) i0 o0 e0 -> run_clean v0 fail_at openable pl sh.
 
-Theorem C08_refuted : ~ C08_full.
+(* ---------------- the one class that remains ---------------- *)
+(* a builtin alone on its line with `1>&2` followed by another redirection of descriptor 1
+   (`alias 1>&2 > f`): the look-ahead call in _get_std_fds opens f and drops the descriptor *)
+Definition Known_C08 (pl : plan) : bool :=
+  is_single_builtin pl && existsb (fun st => lookahead_leak (s_redirs st)) (p_stages pl).
+
+(* the stage classes of the variants (all empty for v0, see Known_C08_child_v0) *)
+Definition Known_C08_child (v : variant) (capture last : bool) (st : stage) : bool :=
+  negb (clean v capture last (s_redirs st)).
+Definition Known_C08_shell (v : variant) (fail_at : nat -> bool) (pl : plan) : bool :=
+  is_single_builtin pl
+  || (capture_fails fail_at pl && negb (length (p_stages pl) =? 1) && negb (v_capfail v)).
+
+Lemma existsb_split : forall (A : Type) (f g : A -> bool) (c1 c2 : bool) l,
+  existsb (fun r => f r && c1 || g r && c2) l = existsb f l && c1 || existsb g l && c2.
 Proof.
-  intro H. specialize (H nf yes (mkplan [mks FNone [mkr F2 false TAmp1] KExt []] false) sh0).
-  destruct H as (_ & K). vm_compute in K. inversion K as [|k ks HK _]; subst.
-  specialize (HK eq_refl 3 (le_n 3)). vm_compute in HK. discriminate.
+  induction l as [|x r IH]; [reflexivity|]. cbn [existsb]. rewrite IH.
+  destruct (f x), (g x), c1, c2, (existsb f r), (existsb g r); reflexivity.
+Qed.
+Lemma existsb_andc : forall (A : Type) (f : A -> bool) (c : bool) l,
+  existsb (fun r => f r && c) l = existsb f l && c.
+Proof.
+  induction l as [|x r IH]; [reflexivity|]. cbn [existsb]. rewrite IH.
+  destruct (f x), c, (existsb f r); reflexivity.
+Qed.
+Lemma Known_C08_child_classes : forall v capture last st,
+  Known_C08_child v capture last st = known_dupleak v last capture st || known_capredir v last capture st.
+Proof.
+  intros. unfold Known_C08_child, clean, known_dupleak, known_capredir, dirty.
+  rewrite has12_file.
+  rewrite (existsb_split _ (fun r => is_dup21 r && negb (negb last)) is_dup12 (negb capture) (negb last || negb capture)).
+  rewrite (existsb_andc _ is_dup21 (negb (negb last))).
+  destruct (v_dupclose v), (v_capclose v), last, capture, (existsb is_dup21 (s_redirs st)),
+    (existsb is_dup12 (s_redirs st)), (existsb is_file_redir (s_redirs st)); reflexivity.
 Qed.
 
-(* --- what holds, for every number of stages, every initial table, both variants of the code --- *)
-(* the classes in which the SHELL's table is not restored *)
-Definition Known_C08_shell (fail_at : nat -> bool) (pl : plan) : bool :=
-  is_single_builtin pl                                       (* builtin run in the shell itself *)
-  || (capture_fails fail_at pl && negb (length (p_stages pl) =? 1)).   (* capture pipe() fails, n > 1 *)
+Lemma Known_C08_child_v0 : forall capture last st, Known_C08_child v0 capture last st = false.
+Proof.
+  intros. unfold Known_C08_child, clean, dirty, v0. cbn [v_dupclose v_capclose negb andb].
+  rewrite !andb_false_r. reflexivity.
+Qed.
 
-Theorem C08_shell : forall fixed fail_at openable pl sh,
-  Known_C08_shell fail_at pl = false ->
-  let r := run_pipeline fixed fail_at openable pl sh in
+(* ---------------- every n, every initial table, every variant ---------------- *)
+Theorem C08_shell_variants : forall v fail_at openable pl sh,
+  Known_C08_shell v fail_at pl = false ->
+  let r := run_pipeline v fail_at openable pl sh in
   teq_tab (res_shell r) (tab sh) /\ (res_error r = false -> length (res_kids r) = length (p_stages pl)).
 Proof.
-  intros fixed fail_at openable pl sh K. unfold Known_C08_shell in K.
-  apply Bool.orb_false_iff in K. destruct K as (K1 & K2).
+  intros v fail_at openable pl sh K. unfold Known_C08_shell in K.
+  apply orb_false_iff in K. destruct K as (K1 & K2).
   apply shell_restored; auto.
-  intro CF. rewrite CF in K2. cbn in K2. apply Bool.negb_false_iff in K2. apply Nat.eqb_eq in K2. exact K2.
+  intro CF. rewrite CF in K2. cbn [andb] in K2. apply andb_false_iff in K2. destruct K2 as [K2|K2].
+  - left. apply negb_false_iff in K2. apply Nat.eqb_eq in K2. exact K2.
+  - right. apply negb_false_iff in K2. exact K2.
 Qed.
-Check C08_shell : forall fixed fail_at openable pl sh,
-  Known_C08_shell fail_at pl = false ->
-  let r := run_pipeline fixed fail_at openable pl sh in
+
+Theorem C08_children_variants : forall v fail_at openable pl sh i0 o0 e0,
+  std_ok (tab sh) i0 o0 e0 -> is_single_builtin pl = false ->
+  let r := run_pipeline v fail_at openable pl sh in
+  res_error r = false ->
+  kids_ok (fun idx st k =>
+             Known_C08_child v (p_capture pl) (idx =? length (p_stages pl) - 1) st = false -> kid_clean (tab sh) k)
+          0 (p_stages pl) (res_kids r).
+Proof.
+  intros v fail_at openable pl sh i0 o0 e0 SO NB r NE.
+  eapply kids_ok_impl; [|apply (pipeline_kids v openable fail_at pl sh i0 o0 e0 SO NB NE)].
+  cbn beta. intros idx st k KS KN HE. unfold Known_C08_child in KN. apply negb_false_iff in KN. split.
+  - destruct (kid_std_fds _ _ _ _ _ _ _ _ _ _ _ KS HE) as (A & B & C).
+    intros x Hx. destruct x as [|[|[|x]]]; [eexists; exact A | eexists; exact B | eexists; exact C | lia].
+  - eapply kid_clean_above; eauto.
+Qed.
+
+(* ---------------- the code as it is ---------------- *)
+(* pipelines (anything that is not a lone builtin): for every number of stages, every initial table, every
+   combination of here-strings, `<`, redirections, builtin / not-found stages, capture on or off, and EVERY
+   failure point of the up-front loop and of the capture pipes, the shell's table is what it was *)
+Theorem C08_shell : forall fail_at openable pl sh,
+  is_single_builtin pl = false ->
+  let r := run_pipeline v0 fail_at openable pl sh in
+  teq_tab (res_shell r) (tab sh) /\ (res_error r = false -> length (res_kids r) = length (p_stages pl)).
+Proof.
+  intros fail_at openable pl sh NB. apply shell_restored; auto.
+Qed.
+Check C08_shell : forall fail_at openable pl sh,
+  is_single_builtin pl = false ->
+  let r := run_pipeline v0 fail_at openable pl sh in
   teq_tab (res_shell r) (tab sh) /\ (res_error r = false -> length (res_kids r) = length (p_stages pl)).
 
-(* descriptor exhaustion in the up-front loop: for EVERY failure point everything created is released,
-   nothing is forked and the result is an error *)
-Theorem C08_emfile : forall fixed fail_at openable pl sh k,
+(* every exec'd stage of every pipeline has exactly 0 1 2 plus what the shell itself had open without
+   close-on-exec: no pipe end of another stage, no capture pipe, no redirect target, no dup()ed copy,
+   no here-string pipe -- no class excluded *)
+Theorem C08_children : forall fail_at openable pl sh i0 o0 e0,
+  std_ok (tab sh) i0 o0 e0 -> is_single_builtin pl = false ->
+  let r := run_pipeline v0 fail_at openable pl sh in
+  res_error r = false ->
+  kids_ok (fun _ _ k => kid_clean (tab sh) k) 0 (p_stages pl) (res_kids r).
+Proof.
+  intros fail_at openable pl sh i0 o0 e0 SO NB r NE.
+  eapply kids_ok_impl; [|apply (C08_children_variants v0 fail_at openable pl sh i0 o0 e0 SO NB NE)].
+  cbn beta. intros idx st k H. apply H. apply Known_C08_child_v0.
+Qed.
+Check C08_children : forall fail_at openable pl sh i0 o0 e0,
+  std_ok (tab sh) i0 o0 e0 -> is_single_builtin pl = false ->
+  let r := run_pipeline v0 fail_at openable pl sh in
+  res_error r = false ->
+  kids_ok (fun _ _ k => kid_clean (tab sh) k) 0 (p_stages pl) (res_kids r).
+
+(* a builtin that runs in the shell itself, captured or not, with any redirection list outside the
+   look-ahead class, unopenable targets included: the shell's table is what it was *)
+Theorem C08_builtin : forall fail_at openable pl sh st o1 c1 o2 c2,
+  p_stages pl = [st] -> s_kind st = KBuiltin ->
+  lookahead_leak (s_redirs st) = false ->
+  lookup (tab sh) 1 = Some (o1, c1) -> lookup (tab sh) 2 = Some (o2, c2) ->
+  teq_tab (res_shell (run_pipeline v0 fail_at openable pl sh)) (tab sh).
+Proof. intros. eapply builtin_restored; eauto. Qed.
+Check C08_builtin : forall fail_at openable pl sh st o1 c1 o2 c2,
+  p_stages pl = [st] -> s_kind st = KBuiltin ->
+  lookahead_leak (s_redirs st) = false ->
+  lookup (tab sh) 1 = Some (o1, c1) -> lookup (tab sh) 2 = Some (o2, c2) ->
+  teq_tab (res_shell (run_pipeline v0 fail_at openable pl sh)) (tab sh).
+
+(* descriptor exhaustion in the up-front loop: error, nothing forked, everything released
+   (the capture pipes' failure points are covered by C08_shell: table restored) *)
+Theorem C08_emfile : forall v fail_at openable pl sh k,
   k < length (p_stages pl) - 1 -> fail_at k = true ->
-  let r := run_pipeline fixed fail_at openable pl sh in
+  let r := run_pipeline v fail_at openable pl sh in
   res_error r = true /\ res_kids r = [] /\ teq_tab (res_shell r) (tab sh).
 Proof. exact emfile_upfront. Qed.
-Check C08_emfile : forall fixed fail_at openable pl sh k,
+Check C08_emfile : forall v fail_at openable pl sh k,
   k < length (p_stages pl) - 1 -> fail_at k = true ->
-  let r := run_pipeline fixed fail_at openable pl sh in
+  let r := run_pipeline v fail_at openable pl sh in
   res_error r = true /\ res_kids r = [] /\ teq_tab (res_shell r) (tab sh).
 
-(* non-vacuity: a 3-stage pipeline with a here-string and redirections, initial table with a hole *)
-Example C08_shell_nonvacuous :
-  let pl := mkplan [ext; mks FHere [mkr F2 false TAmp1] KExt []; mks FNone [mkr F1 true (TFile 4)] KExt []] false in
-  Known_C08_shell nf pl = false /\
-  length (res_kids (run_pipeline false nf yes pl (mkp [Some (OInh 0, false); Some (OInh 1, false); Some (OInh 2, false); None; Some (OInh 4, true)] []))) = 3.
+(* the full statement outside the one remaining class *)
+Theorem C08_partial : forall fail_at openable pl sh i0 o0 e0,
+  std_ok (tab sh) i0 o0 e0 -> Known_C08 pl = false -> run_clean v0 fail_at openable pl sh.
+Proof.
+  intros fail_at openable pl sh i0 o0 e0 SO K. unfold run_clean. cbv zeta.
+  destruct (is_single_builtin pl) eqn:SB.
+  - destruct (single_builtin_shape pl SB) as (st & ES & EK).
+    unfold Known_C08 in K. rewrite SB, ES in K. cbn [andb existsb] in K. rewrite orb_false_r in K.
+    destruct SO as (_ & S1 & S2). split.
+    + eapply builtin_restored; eauto.
+    + intros _. rewrite (builtin_no_kids v0 fail_at openable pl sh SB). constructor.
+  - split.
+    + apply (proj1 (C08_shell fail_at openable pl sh SB)).
+    + intro NE. eapply kids_ok_Forall. apply (C08_children fail_at openable pl sh i0 o0 e0 SO SB NE).
+Qed.
+Check C08_partial : forall fail_at openable pl sh i0 o0 e0,
+  std_ok (tab sh) i0 o0 e0 -> Known_C08 pl = false -> run_clean v0 fail_at openable pl sh.
+
+(* ---------------- the remaining refutation ---------------- *)
+Definition kid0 (r : result) := hd (mkkid 0 sh0 OExec) (res_kids r).
+Definition p_dup := mkplan [mks FNone [mkr F2 false TAmp1] KExt []] false.
+Definition p_bcap := mkplan [mks FNone [] KBuiltin [true]] true.
+Definition p_capredir := mkplan [mks FNone [mkr F1 false (TFile 5)] KExt []] true.
+Definition p_look := mkplan [mks FNone [mkr F1 false TAmp2; mkr F1 false (TFile 5)] KBuiltin [true]] false.
+(* alias 1>&2 > f : the look-ahead call of _get_std_fds opens f and never closes it *)
+Example C08_refuted_builtin_lookahead :
+  Known_C08 p_look = true /\
+  lookup (tab (res_shell (run_pipeline v0 nf yes p_look sh0))) 3 = Some (OFile 5 MTrunc, true).
 Proof. vm_compute. split; reflexivity. Qed.
+Theorem C08_refuted : ~ C08_full.
+Proof.
+  intro H. destruct (H nf yes p_look sh0 (OInh 0) (OInh 1) (OInh 2)) as (T & _); [vm_compute; auto|].
+  specialize (T 3). vm_compute in T. discriminate.
+Qed.
+
+(* ---------------- regression: what each repair bought (the code BEFORE the commit leaks) ---------------- *)
+Definition v_before_8dc92a8 := mkv false true true true true.
+Definition v_before_07e8792 := mkv true false true true true.
+Definition v_before_219c117 := mkv true true false true true.
+Definition v_before_3c1f8de := mkv true true true false true.
+Definition v_before_d4ac685 := mkv true true true true false.
+Definition bunop_plan := mkplan [mks FNone [mkr F1 false (TFile 5)] KBuiltin [true]] false.
+Example C08_regression :
+  (* prog 2>&1 : the dup()ed descriptor 3 stayed open in prog *)
+  lookup (tab (k_proc (kid0 (run_pipeline v_before_8dc92a8 nf yes p_dup sh0)))) 3 = Some (OInh 1, false) /\
+  lookup (tab (k_proc (kid0 (run_pipeline v0 nf yes p_dup sh0)))) 3 = None /\
+  (* echo $(alias) : the four capture-pipe ends stayed open in the shell *)
+  map (obj_at (tab (res_shell (run_pipeline v_before_07e8792 nf yes p_bcap sh0)))) [3; 4; 5; 6]
+  = [Some (OPipeR PCapOut); Some (OPipeW PCapOut); Some (OPipeR PCapErr); Some (OPipeW PCapErr)] /\
+  map (obj_at (tab (res_shell (run_pipeline v0 nf yes p_bcap sh0)))) [3; 4; 5; 6] = [None; None; None; None] /\
+  (* echo $(prog > f) : prog kept both ends of the stdout capture pipe *)
+  map (obj_at (tab (k_proc (kid0 (run_pipeline v_before_219c117 nf yes p_capredir sh0))))) [3; 4]
+  = [Some (OPipeR PCapOut); Some (OPipeW PCapOut)] /\
+  map (obj_at (tab (k_proc (kid0 (run_pipeline v0 nf yes p_capredir sh0))))) [3; 4] = [None; None] /\
+  (* echo $(a | b) with a failing capture pipe(): the stage pipe 3,4 was not released *)
+  map (obj_at (tab (res_shell (run_pipeline v_before_3c1f8de (fun k => Nat.eqb k 1) yes (mkplan [ext; ext] true) sh0)))) [3; 4]
+  = [Some (OPipeR (PStage 0)); Some (OPipeW (PStage 0))] /\
+  map (obj_at (tab (res_shell (run_pipeline v0 (fun k => Nat.eqb k 1) yes (mkplan [ext; ext] true) sh0)))) [3; 4] = [None; None] /\
+  (* alias > /nonexistent/x : ran anyway, status 0 *)
+  res_error (run_pipeline v_before_d4ac685 nf (fun p => negb (Nat.eqb p 5)) bunop_plan sh0) = false /\
+  res_error (run_pipeline v0 nf (fun p => negb (Nat.eqb p 5)) bunop_plan sh0) = true.
+Proof. vm_compute. repeat split; reflexivity. Qed.
+
+(* non-vacuity: a 3-stage pipeline with here-string and redirections from an initial table with a hole *)
+Example C08_nonvacuous :
+  let pl := mkplan [ext; mks FHere [mkr F1 true (TFile 4); mkr F2 false TAmp1] KExt []; mks FNone [mkr F2 false (TFile 6); mkr F1 false TAmp2] KExt []] false in
+  let sh := mkp [Some (OInh 0, false); Some (OInh 1, false); Some (OInh 2, false); None; Some (OInh 4, true)] [] in
+  Known_C08 pl = false /\
+  map (fun k => (k_out k, map (obj_at (tab (k_proc k))) [0; 1; 2; 3; 4; 5])) (res_kids (run_pipeline v0 nf yes pl sh))
+  = [(OExec, [Some (OInh 0); Some (OPipeW (PStage 0)); Some (OInh 2); None; None; None]);
+     (OExec, [Some (OPipeR (PHere 1)); Some (OFile 4 MAppend); Some (OFile 4 MAppend); None; None; None]);
+     (OExec, [Some (OPipeR (PStage 1)); Some (OFile 6 MTrunc); Some (OFile 6 MTrunc); None; None; None])].
+Proof. vm_compute. repeat split; reflexivity. Qed.
 
 Print Assumptions C08_shell.
+Print Assumptions C08_children.
+Print Assumptions C08_builtin.
+Print Assumptions C08_partial.
 Print Assumptions C08_emfile.
 Print Assumptions C08_refuted.
